@@ -57,7 +57,6 @@ Record pcfg_ok (C : pcfg) : Prop := {
       spec C l -> spec C body -> (forall x, spec C (k x)) -> spec C (p_rec_guard l body k);
   ok_rec_guard_w : forall A B (l : PM B) (body : PM A) (k : A -> PM B),
       spec C l -> specW C body -> (forall x, specR C (k x)) -> spec C (p_rec_guard l body k);
-  ok_assert_balanced : spec C g_assert_recursion_balanced;
   ok_debug_assert : forall b, spec C (p_debug_assert_advanced b);
   (* the two productions that use token data / pop directly *)
   ok_name : spec C g_name;
@@ -119,7 +118,7 @@ End Logic.
 Create HintDb gen discriminated.
 Global Hint Resolve ok_rel : gen.
 Global Hint Resolve ok_peek_token ok_skip_ignored ok_push_ignored ok_bump ok_err ok_err_at_token
-  ok_err_at_token_inv ok_limit_err ok_err_and_pop ok_expect ok_assert_balanced ok_debug_assert ok_name
+  ok_err_at_token_inv ok_limit_err ok_err_and_pop ok_expect ok_debug_assert ok_name
   post_ret_same post_get post_peek_n_inner post_out_of_fuel : gen.
 
 Ltac gside := first [ eassumption | apply ok_rel; eassumption ].
@@ -489,8 +488,76 @@ Proof. unfold g_select_definition. gfull. Qed.
 Global Hint Resolve gg_select_definition : gen.
 
 (* ------------------------------------------------------------------ document.rs and the type entry *)
-Lemma gg_document C (H : pcfg_ok C) fuel : specR C (g_document fuel).
-Proof. unfold g_document. gfull. Qed.
+(* document.rs: the body of the definition loop, without the assert_eq!(recursion_limit.current, 0) *)
+Definition g_document_step (fuel : nat) (kind : tkind) : PM bool :=
+  match kind with
+  | TkStringValue =>
+      d <- p_peek_data_n 2 ;;
+      match d with Some def => g_select_definition def fuel | None => p_err_and_pop end ;;
+      p_ret true
+  | TkName | TkLCurly =>
+      d <- p_peek_data ;;
+      match d with Some def => g_select_definition def fuel | None => p_err_and_pop end ;;
+      p_ret true
+  | TkEof => p_ret false
+  | _ => p_err_and_pop ;; p_ret true
+  end.
+
+Lemma gg_document_step C (H : pcfg_ok C) fuel kind : spec C (g_document_step fuel kind).
+Proof. unfold g_document_step. gfull. Qed.
+
+Lemma g_document_unfold fuel :
+  g_document fuel =
+  p_node SK_DOCUMENT (
+    o <- p_peek ;;
+    p_when (match o with None | Some TkEof => true | _ => false end) p_err ;;
+    p_peek_while fuel (fun kind => g_assert_recursion_balanced ;; g_document_step fuel kind) ;;
+    p_push_ignored).
+Proof. reflexivity. Qed.
+
+(* given that the assertion is harmless for the configuration (partial-correctness instances) *)
+Lemma gg_document C (H : pcfg_ok C) fuel :
+  spec C g_assert_recursion_balanced -> specR C (g_document fuel).
+Proof.
+  intros Ha. rewrite g_document_unfold. pose proof (gg_document_step C H fuel) as Hs. gfull.
+Qed.
+
+(* a loop whose iterations start in states satisfying an extra predicate J that the relation transports *)
+Lemma gg_peek_while_J C (H : pcfg_ok C) (J : pstate -> Prop) fuel (run : tkind -> PM bool) :
+  (forall s s', cRel C s s' -> J s -> J s') ->
+  (forall k, post C (fun s => cInv C s /\ J s) (cInv C) (run k)) ->
+  post C (fun s => cWeak C s /\ J s) (fun s => cInv C s /\ J s) (p_peek_while fuel run).
+Proof.
+  intros HJ Hrun. unfold p_peek_while.
+  assert (Hloop : forall acc, post C (fun s => cWeak C s /\ J s) (fun s => cInv C s /\ J s)
+            (p_peek_while_acc fuel (fun (_ : unit) k => c <- run k ;; p_ret (tt, c)) acc)).
+  { induction fuel as [|f IH]; intros acc; cbn [p_peek_while_acc]; [intros s _; exact I|].
+    intros s [Hw Hj].
+    pose proof (g_peek C H s Hw) as Hp. unfold p_bind at 1.
+    destruct (p_peek s) as [[o s1]| |]; [|exact Hp|exact I]. destruct Hp as [Hi1 Hr1].
+    pose proof (HJ _ _ Hr1 Hj) as Hj1.
+    destruct o as [kind|].
+    2:{ cbn. split; [auto|]. exact Hr1. }
+    unfold p_bind at 1. unfold p_get at 1. cbv iota beta.
+    unfold p_bind at 1. unfold p_bind at 1.
+    pose proof (Hrun kind s1 (conj Hi1 Hj1)) as Hk.
+    destruct (run kind s1) as [[c s2]| |]; [|exact Hk|exact I]. destruct Hk as [Hi2 Hr2].
+    cbn [p_ret]. cbv iota beta.
+    pose proof (HJ _ _ Hr2 Hj1) as Hj2.
+    destruct c.
+    - unfold p_bind at 1.
+      pose proof (ok_debug_assert C H (ps_cur s1) s2 Hi2) as Hd.
+      destruct (p_debug_assert_advanced (ps_cur s1) s2) as [[u s3]| |]; [|exact Hd|exact I].
+      destruct Hd as [Hi3 Hr3]. pose proof (HJ _ _ Hr3 Hj2) as Hj3.
+      specialize (IH tt s3 (conj (ok_inv_weak C (ok_rel C H) _ Hi3) Hj3)).
+      destruct (p_peek_while_acc f _ tt s3) as [[a s4]| |]; [|exact IH|exact I].
+      destruct IH as [Hi4 Hr4]. split; [exact Hi4|].
+      eapply (ok_trans C (ok_rel C H)); [exact Hr1|]. eapply (ok_trans C (ok_rel C H)); [exact Hr2|].
+      eapply (ok_trans C (ok_rel C H)); eauto.
+    - cbn. split; [auto|]. eapply (ok_trans C (ok_rel C H)); eauto. }
+  intros s Hs. unfold p_bind. specialize (Hloop tt s Hs).
+  destruct (p_peek_while_acc fuel _ tt s) as [[a s1]| |]; auto.
+Qed.
 
 (* configurations in which a panic is acceptable (partial correctness): post speaks about returns only *)
 Lemma post_partial C {A} (P Q : pstate -> Prop) (m : PM A) :
@@ -506,3 +573,15 @@ Proof. intros Hm s Hs a s' E. specialize (Hm s Hs). rewrite E in Hm. exact Hm. Q
 Lemma bind_ok {A B} (m : PM A) (f : A -> PM B) s r s' :
   p_bind m f s = POk (r, s') -> exists a s1, m s = POk (a, s1) /\ f a s1 = POk (r, s').
 Proof. unfold p_bind. destruct (m s) as [[a s1]| |]; try discriminate. eauto. Qed.
+
+(* carrying an extra predicate that the relation transports *)
+Lemma post_J C {A} (J P Q : pstate -> Prop) (m : PM A) :
+  (forall s s', cRel C s s' -> J s -> J s') ->
+  post C P Q m -> post C (fun s => P s /\ J s) (fun s => Q s /\ J s) m.
+Proof.
+  intros HJ Hm s [Hp Hj]. specialize (Hm s Hp). destruct (m s) as [[a s']| |]; auto.
+  destruct Hm as [Hq Hr]. split; [split|]; eauto.
+Qed.
+Lemma post_pre_fact C {A} (F : Prop) (P Q : pstate -> Prop) (m : PM A) :
+  (forall s, P s -> F) -> (F -> post C P Q m) -> post C P Q m.
+Proof. intros HF Hm s Hs. exact (Hm (HF s Hs) s Hs). Qed.
